@@ -272,6 +272,13 @@ QVector<QXmppUploadService> QXmppUploadRequestManager::uploadServices() const
 
 bool QXmppUploadRequestManager::handleStanza(const QDomElement &element)
 {
+    // Only responses from the upload service are processed here. Requests must not be swallowed:
+    // the client answers unhandled IQ requests with an error (RFC 6120, 8.2.3).
+    const auto iqType = element.attribute(u"type"_s);
+    if (iqType == u"get" || iqType == u"set") {
+        return false;
+    }
+
     if (QXmppHttpUploadSlotIq::isHttpUploadSlotIq(element)) {
         QXmppHttpUploadSlotIq slot;
         slot.parse(element);
